@@ -102,18 +102,16 @@ theorem commit_ok (σ : State) (α : Spec.State) (h : Rel σ α) (s : String) : 
     have ha' : lookup s α.sessions = some a := ha
     rw [ha']
     dsimp only
-    obtain ⟨hok, c1, pres⟩ := commit_core σ α 0 h.core tid a hr
+    obtain ⟨hok, c1, pres⟩ := commitC_core σ α 0 h.core tid a hr
     refine ⟨by rw [hok], 0, ?_⟩
     have r := RelL.remove h s tid hl c1 pres
     apply r.cast <;> try rfl
     · intro n
-      show lookup n (erase s (σ.commitTxn tid).1.sessions) = _
-      rw [commitTxn_sessions, lookup_erase_if]; rfl
+      show lookup n (erase s (σ.commitC D0 tid).1.sessions) = _
+      rw [commitC_sessions, lookup_erase_if]; rfl
     · intro n
-      show lookup n (erase s (α.commitTxn a).1.sessions) = _
-      have : (α.commitTxn a).1.sessions = α.sessions := by
-        unfold Spec.State.commitTxn; split <;> rfl
-      rw [this, lookup_erase_if]; rfl
+      show lookup n (erase s (α.commitC a).1.sessions) = _
+      rw [spec_commitC_sessions, lookup_erase_if]; rfl
 
 theorem abort_ok_aux (σ : State) (α : Spec.State) (h : Rel σ α) (s : String) (tid : Nat)
     (hl : lookup s σ.sessions = some tid) :
@@ -224,18 +222,18 @@ theorem auto_ok (σ : State) (α : Spec.State) (h : Rel σ α) (st : Stmt) : Ste
       rw [hs2]; rfl
     · intro n; rfl
   · simp only [he, Bool.false_eq_true, if_false]
-    obtain ⟨hok, c3, pres3⟩ := commit_core σ2 α _ c2 _ a' tx2
+    obtain ⟨hok, c3, pres3⟩ := commitC_core σ2 α _ c2 _ a' tx2
     refine ⟨by rw [hok], 0 + countIns p.effs, ?_⟩
     have r := RelL.anon h c3 (fun tid' a'' hex h' =>
       pres3 tid' a'' (sess_ne_new σ α h tid' hex)
         (pres2 tid' a'' (sess_ne_new σ α h tid' hex) (pres1 tid' a'' h')))
     apply r.cast <;> try rfl
     · intro n
-      show lookup n (σ2.commitTxn σ.txns.length).1.sessions = _
-      rw [commitTxn_sessions, hs2]; rfl
+      show lookup n (σ2.commitC D0 σ.txns.length).1.sessions = _
+      rw [commitC_sessions, hs2]; rfl
     · intro n
-      show lookup n (α.commitTxn a').1.sessions = _
-      rw [spec_commit_sessions]; rfl
+      show lookup n (α.commitC a').1.sessions = _
+      rw [spec_commitC_sessions]; rfl
 
 theorem batch_ok (σ : State) (α : Spec.State) (h : Rel σ α) (sts : List Stmt) : StepOk σ α (.batch sts) := by
   unfold StepOk
@@ -272,18 +270,18 @@ theorem batch_ok (σ : State) (α : Spec.State) (h : Rel σ α) (sts : List Stmt
     · intro n; rfl
   | none =>
     dsimp only
-    obtain ⟨hok, c3, pres3⟩ := commit_core σ2 α _ c2 _ a' tx2
+    obtain ⟨hok, c3, pres3⟩ := commitC_core σ2 α _ c2 _ a' tx2
     refine ⟨by rw [hok], j2, ?_⟩
     have rr := RelL.anon h c3 (fun tid' a'' hex h' =>
       pres3 tid' a'' (sess_ne_new σ α h tid' hex)
         (pres2 tid' a'' (sess_ne_new σ α h tid' hex) (pres1 tid' a'' h')))
     apply rr.cast <;> try rfl
     · intro n
-      show lookup n (σ2.commitTxn σ.txns.length).1.sessions = _
-      rw [commitTxn_sessions, hs2]; rfl
+      show lookup n (σ2.commitC D0 σ.txns.length).1.sessions = _
+      rw [commitC_sessions, hs2]; rfl
     · intro n
-      show lookup n (α.commitTxn a').1.sessions = _
-      rw [spec_commit_sessions]; rfl
+      show lookup n (α.commitC a').1.sessions = _
+      rw [spec_commitC_sessions]; rfl
 
 theorem spec_tick (α : Spec.State) :
     α.commitTxn α.beginTxn = ({ α with log := α.log ++ [(α.log.length, [])] }, true) := by
